@@ -1047,7 +1047,10 @@ void Adaptation::Icap::ModXact::prepPartialBodyEchoing(uint64_t pos)
 void Adaptation::Icap::ModXact::handleUnknownScode()
 {
     stopParsing(false);
-    stopBackup();
+    // keep the virgin body backup while this failure may still be bypassed:
+    // bypassFailure() -> prepEchoing() needs virginBodySending
+    if (!canStartBypass)
+        stopBackup();
     // TODO: mark connection as "bad"
 
     // Terminate the transaction; we do not know how to handle this response.
